@@ -17,7 +17,12 @@ from sa.taint import run_roles, split_items, split_args, int_equiv
 
 # callees whose RESULT no longer exposes the key (encryption / key wrap), and callees the key may merely be handed to
 SANITIZERS = ('encrypt_sk', 'encrypt', '_encrypt', 'aes_key_wrap', 'cipher', 'Cipher', 'encfn')
-CARRIERS = SANITIZERS + ('derive_key', 'sum', 'bytearray', 'bytes', 'int_to_bytes', 'update', 'len', 'padder', 'PKCS7', 'MPI', 'bytes_to_int',
+# observers: their RESULT is a function of the size / type of the value only (the size of a session key is public: the cipher fixes it),
+# so an error message or a warning built from them does not expose the key; memoryview(x) is allowed as a call only (its result IS the
+# key), `memoryview(x).nbytes` reads as len(x) (sa/taint.strip_calls)
+OBSERVERS = ('len', 'type', 'isinstance')
+SANITIZERS = SANITIZERS + OBSERVERS
+CARRIERS = SANITIZERS + ('memoryview', 'derive_key', 'sum', 'bytearray', 'bytes', 'int_to_bytes', 'update', 'len', 'padder', 'PKCS7', 'MPI', 'bytes_to_int',
                          'divmod', 'reduce', 'to_bytes', 'partial')
 BITS = [64, 128, 192, 256]
 
